@@ -144,6 +144,15 @@ func (s *LinearState) Load(ctx *Context) error {
 			Log(DEBUG, ctx, "LinearState.Load", "error", err, "js", string(js))
 			return err
 		}
+		// Like IndexedState.Load (via add): let the hook see what
+		// is loaded, so that scheduled rules are registered again
+		// with a cron that does not remember them.
+		if s.addHook != nil {
+			if err := s.addHook(ctx, s, id, m, true); err != nil {
+				Log(ERROR, ctx, "LinearState.Load", "state", s.Name, "error", err, "when", "addHook", "id", id)
+				return err
+			}
+		}
 		s.Facts[id] = RawFact{m, js}
 	}
 
@@ -431,8 +440,34 @@ func (s *LinearState) FindCachedRules(ctx *Context, event Map) (map[string]*Rule
 	return acc, nil
 }
 
+// remHooks runs the removal hook for every fact (see
+// IndexedState.remHooks): what is about to be wiped has to be
+// unscheduled, too.
+func (s *LinearState) remHooks(ctx *Context) error {
+	if s.remHook == nil {
+		return nil
+	}
+	s.slock(ctx, true)
+	ids := make([]string, 0, len(s.Facts))
+	for id := range s.Facts {
+		ids = append(ids, id)
+	}
+	s.sunlock(ctx, true)
+	for _, id := range ids {
+		if err := s.remHook(ctx, s, id); err != nil {
+			Log(ERROR, ctx, "LinearState.remHooks", "state", s.Name, "error", err,
+				"id", id, "when", "remHook")
+			return err
+		}
+	}
+	return nil
+}
+
 func (s *LinearState) Clear(ctx *Context) error {
 	Log(INFO, ctx, "LinearState.Clear", "name", s.Name)
+	if err := s.remHooks(ctx); err != nil {
+		return err
+	}
 	_, err := s.store.Clear(ctx, s.Name)
 	// Maybe protect the store (above), too.
 	s.slock(ctx, false)
@@ -444,6 +479,9 @@ func (s *LinearState) Clear(ctx *Context) error {
 
 func (s *LinearState) Delete(ctx *Context) error {
 	Log(DEBUG, ctx, "LinearState.Delete", "name", s.Name)
+	if err := s.remHooks(ctx); err != nil {
+		return err
+	}
 	err := s.store.Delete(ctx, s.Name)
 	// Maybe protect the store (above), too.
 	s.slock(ctx, false)
